@@ -165,7 +165,7 @@ Definition model_agrees (c : case) : bool :=
   | Fold _ e out => fold_out_eqb (fold_step e) out
   | Push d f wh out =>
       match f with
-      | FJoin _ l _ _ => push_out_eqb (push_decision (from_width d l) wh) out
+      | FJoin k l _ _ => push_out_eqb (push_decision k (from_width d l) wh) out
       | FTab _ => false
       end
   end.
@@ -226,17 +226,7 @@ Definition known_class (c : case) : Z :=
   match c with
   | Meta d q _ _ forms tlp => first_class d (q :: map form_query forms ++ tlp_queries q tlp)
   | Fold _ _ _ => 0
-  | Push d f wh out =>
-      match f with
-      | FJoin k l _ _ =>
-          let wl := from_width d l in
-          match out with
-          | PLeft => if negb (only_left wl wh) then 4 else if left_push_ok k then 0 else 6
-          | PRight => if negb (only_right wl wh) then 4 else if right_push_ok k then 0 else 6
-          | _ => 0
-          end
-      | FTab _ => 0
-      end
+  | Push _ _ _ _ => 0
   end.
 
 Fixpoint failures_from (i : Z) (cs : list case) : list (Z * bool * bool * Z) :=
